@@ -1,3 +1,4 @@
+import GBProofs.FormulaProofs
 import GBProofs.Props.C14full
 import GBProofs.TraceLaws
 /-!
